@@ -97,6 +97,15 @@ import BGV
 #print axioms BGV.C08_postIncr
 #print axioms BGV.C08_enumeration_defined
 
+-- C09
+#print axioms BGV.C09_reversed
+#print axioms BGV.C09_reversed_twice
+
+-- C10
+#print axioms BGV.C10_getSubgraph
+#print axioms BGV.C10_bad_vertex
+#print axioms BGV.C10_getSubgraphWithRemap
+
 -- C11
 #print axioms BGV.C11_findVertexPredecessors
 #print axioms BGV.C11_entry
